@@ -14,35 +14,36 @@ pub struct HavokSkeleton {
 }
 
 impl HavokSkeleton {
-    pub fn new(object: Arc<RefCell<HavokObject>>) -> Self {
+    /// `None` when the object does not have the members of a `hkaSkeleton`.
+    pub fn new(object: Arc<RefCell<HavokObject>>) -> Option<Self> {
         let root = object.borrow();
-        let bones = root.get("bones").as_array();
+        let bones = root.get("bones")?.as_array()?;
         let bone_names = bones
             .iter()
             .map(|x| {
-                let bone = x.as_object();
+                let bone = x.as_object()?;
                 let bone_obj = bone.borrow();
 
-                bone_obj.get("name").as_string().to_owned()
+                Some(bone_obj.get("name")?.as_string()?.to_owned())
             })
-            .collect::<Vec<_>>();
+            .collect::<Option<Vec<_>>>()?;
 
-        let raw_parent_indices = root.get("parentIndices").as_array();
+        let raw_parent_indices = root.get("parentIndices")?.as_array()?;
         let parent_indices = raw_parent_indices
             .iter()
-            .map(|x| x.as_int() as usize)
-            .collect::<Vec<_>>();
+            .map(|x| Some(x.as_int()? as usize))
+            .collect::<Option<Vec<_>>>()?;
 
-        let raw_reference_pose = root.get("referencePose").as_array();
+        let raw_reference_pose = root.get("referencePose")?.as_array()?;
         let reference_pose = raw_reference_pose
             .iter()
-            .map(|x| HavokTransform::new(x.as_vec()))
-            .collect::<Vec<_>>();
+            .map(|x| HavokTransform::new(x.as_vec()?))
+            .collect::<Option<Vec<_>>>()?;
 
-        Self {
+        Some(Self {
             bone_names,
             parent_indices,
             reference_pose,
-        }
+        })
     }
 }
